@@ -54,6 +54,10 @@ CHECKS = {
          "All 225 ordered pairs of 15 epochs (J2000 +- 0..20 centuries) x 110 directions (poles, both sides of the 85-degree branch) for identity, rigidity, there-and-back, route agreement and the Newcomb variant; all 125 ordered epoch triples x 20 directions for composition; proper motions {0, +-1, +-10 arcsec/yr}^2; orbital elements incl. retrograde and nearly ecliptic orbits.",
          "Real-valued quantifier: finite lattice of epochs and directions; tolerances are those of the statement.",
          "DESIGN.md 3/C06"),
+ "C11": (EX, "exhaustive Cartesian lattice eccentricity x mean anomaly (seam values +-1 ulp, multiples of 180 +-1e-9, many turns, both signs) with residual/half-revolution/true-anomaly oracles; node passages fed back through Kepler/Barker (depth-2 chain)",
+         "13 eccentricities (0..0.999999) x ~850 mean anomalies (thorough ~7 400) for Kepler's equation; vis-viva and orbit-length identities on 13 x 4 (e, a) incl. both sides of the 0.95 switch; all triangle-feasible distance triples for the phase relations; 700 node-passage cases (omega x e or q x both nodes) closed through the library's own Kepler solver or an independent Barker solver.",
+         "Real-valued quantifier: finite lattice; residuals evaluated in double precision.",
+         "DESIGN.md 3/C11"),
 }
 
 NOT_YET = {}
